@@ -267,16 +267,23 @@ impl<'tcx> Cx<'tcx> {
         let def = tcx.adt_def(did);
         let mut j = J::obj();
         j.str("kind", if def.is_enum() { "enum" } else if def.is_union() { "union" } else { "struct" });
+        j.boolean("pub", tcx.visibility(did).is_public());
         let mut vs = J::arr();
         for v in def.variants() {
             let mut vj = J::obj();
             vj.str("name", v.name.as_str());
+            if def.is_enum() {
+                if let Some(vix) = def.variants().iter_enumerated().find(|(_, x)| x.def_id == v.def_id).map(|(i, _)| i) {
+                    vj.num("discr", def.discriminant_for_variant(tcx, vix).val as i128);
+                }
+            }
             let mut fs = J::arr();
             for f in &v.fields {
                 let mut fj = J::obj();
                 fj.str("name", f.name.as_str());
                 let fty = tcx.type_of(f.did).instantiate_identity().skip_norm_wip();
                 fj.num("ty", self.ty(fty) as i128);
+                fj.boolean("pub", f.vis.is_public());
                 fs.push_raw(&fj.finish());
             }
             vj.raw("fields", &fs.finish());
